@@ -842,7 +842,7 @@ def repr_token(v):
         return v
     return repr(v)[:80]
 
-@I.rx(r'^(anyhow::__private::)?(format_err|must_use)$|^anyhow::Error::msg$|^anyhow::error::<impl anyhow::Error>::msg$|^anyhow::Error::(new|from)$|^anyhow::error::<impl From<E> for anyhow::Error>::from$|^<anyhow::Error as From<.*>>::from$')
+@I.rx(r'^(anyhow::__private::)?(format_err|must_use)$|^anyhow::Error::msg$|^anyhow::error::<impl anyhow::Error>::(msg|new)$|^anyhow::Error::(new|from)$|^anyhow::error::<impl From<E> for anyhow::Error>::from$|^<anyhow::Error as From<.*>>::from$')
 def _anyhow_new(m, args, ci):
     if ci.name.endswith('must_use'):
         return args[0]
@@ -1058,22 +1058,22 @@ class HMap:
         for k, cell in self.entries:
             m.drop_value(cell.v)
 
-@I.rx(r'(^|::)HashMap::new$|^<(std::collections::)?HashMap as Default>::default$')
+@I.rx(r'(^|::)(HashMap|BTreeMap)::new$|^<(std::collections::)?(HashMap|BTreeMap) as Default>::default$')
 def _hm_new(m, args, ci):
     return HMap()
 
-@I.rx(r'(^|::)HashMap::(get|get_mut)$')
+@I.rx(r'(^|::)(HashMap|BTreeMap)::(get|get_mut)$')
 def _hm_get(m, args, ci):
     hm = deref_val(args[0])
     i = hm.find(m, args[1])
     return none() if i is None else some(Ref(hm.entries[i][1], 'v'))
 
-@I.rx(r'(^|::)HashMap::contains_key$')
+@I.rx(r'(^|::)(HashMap|BTreeMap)::contains_key$')
 def _hm_contains(m, args, ci):
     hm = deref_val(args[0])
     return hm.find(m, args[1]) is not None
 
-@I.rx(r'(^|::)HashMap::remove$')
+@I.rx(r'(^|::)(HashMap|BTreeMap)::remove$')
 def _hm_remove(m, args, ci):
     hm = deref_val(args[0])
     i = hm.find(m, args[1])
@@ -1082,7 +1082,7 @@ def _hm_remove(m, args, ci):
     k, cell = hm.entries.pop(i)
     return some(cell.v)
 
-@I.rx(r'(^|::)HashMap::insert$')
+@I.rx(r'(^|::)(HashMap|BTreeMap)::insert$')
 def _hm_insert(m, args, ci):
     hm = deref_val(args[0])
     i = hm.find(m, args[1])
@@ -1093,7 +1093,7 @@ def _hm_insert(m, args, ci):
     hm.entries[i][1].v = args[2]
     return some(old)
 
-@I.rx(r'(^|::)HashMap::(len|is_empty)$')
+@I.rx(r'(^|::)(HashMap|BTreeMap)::(len|is_empty)$')
 def _hm_len(m, args, ci):
     hm = deref_val(args[0])
     return len(hm.entries) if ci.name.endswith('len') else len(hm.entries) == 0
@@ -1113,7 +1113,7 @@ def _entry_inner(v):
         return v.fields[0]
     return v
 
-@I.rx(r'(^|::)HashMap::entry$')
+@I.rx(r'(^|::)(HashMap|BTreeMap)::entry$')
 def _hm_entry(m, args, ci):
     hm = deref_val(args[0])
     i = hm.find(m, args[1])
